@@ -107,6 +107,14 @@ Lemma zen_code_px c d dz sd dx : 0 < d -> sd ^ 2 = d ^ 2 + dz ^ 2 ->
   c / (d * sd * sd) * dz * dx = c * (dz / (d ^ 2 + dz ^ 2) * (dx / d)).
 Proof. intros Hd Hs. replace (d * sd * sd) with (d * sd ^ 2) by ring. rewrite Hs. field. split; nra. Qed.
 
+(* second face of the instrument: the reading is 2 pi - za; its partials are the negatives (the code mirrored the computed
+   value only, before the repair) *)
+Definition zen2 (d dz : R) : R := 2 * PI - zen d dz.
+Lemma zen2_ddz d dz : 0 < d -> is_derive (fun t => zen2 d t) dz (- (- d / (d ^ 2 + dz ^ 2))).
+Proof. intro H. unfold zen2, zen. auto_derive; [first [exact I | lra | (repeat split; try exact I; try lra)]|]. field. split; nra. Qed.
+Lemma zen2_dd d dz : 0 < d -> is_derive (fun t => zen2 t dz) d (- (dz / (d ^ 2 + dz ^ 2))).
+Proof. intro H. unfold zen2, zen. auto_derive; [first [exact I | lra | (repeat split; try exact I; try lra)]|]. field. split; nra. Qed.
+
 (* ---------- reduction of angular right-hand sides: while a > h: a -= 2h; while a < -h: a += 2h ---------- *)
 Fixpoint down (n : nat) (h a : R) : R :=
   match n with O => a | S k => if Rlt_dec h a then down k h (a - 2 * h) else a end.
